@@ -17,4 +17,4 @@ def unit(name, entries, threads, preempt, q, internal=True, validate=None):
 
 
 def E(name, desc, q, wall=None):
-    return PathEntry(name, desc=desc, wall=wall or (600 if q else 3000), max_steps=(30000000 if q else 600000000), max_paths=(100000 if q else 2000000))
+    return PathEntry(name, desc=desc, wall=wall or (600 if q else 1500), max_steps=(30000000 if q else 600000000), max_paths=(100000 if q else 2000000))
